@@ -17,11 +17,14 @@ identical id / method / params / result / error.
 """
 from __future__ import annotations
 
+import ast
 import copy
 import hashlib
 import importlib
 import inspect
+import itertools
 import json
+import os
 from typing import Any, Dict, List, Optional, Tuple
 
 from .. import core, explorer, gen, sched, seams
@@ -627,6 +630,291 @@ def _run_stdio(cfg) -> Dict[str, Any]:
     return {"outcome": "stdio:" + base, "violations": J.viol, "counters": J.cnt, "emitter": J.emitter,
             "wire_digest": J.h.hexdigest()}
 
+# ---------------------------------------------------------------------------
+# (e) raw-dict emitters: functions that build a {"jsonrpc": ...} literal themselves
+# ---------------------------------------------------------------------------
+RAW_DRIVEN = {
+    "protocol/features/batching.py:BatchProcessor.create_batch_rejection_error": "part d-batch-rejection-error",
+    "protocol/features/batching.py:BatchProcessor.process_message_data": "part e-raw-dict-emitters",
+    "protocol/types/elicitation.py:ElicitationHandler.request_user_input": "part e-raw-dict-emitters",
+    "protocol/types/elicitation.py:ElicitationClient.handle_elicitation_request": "part e-raw-dict-emitters",
+}
+RAW_UNDRIVEN = {
+    "protocol/features/batching.py:test_version_batching_scenarios":
+        "self-test helper: the literal is an input message fed to can_process_batch, nothing is emitted",
+    "transports/sse/transport.py:SSETransport._send_message_via_http":
+        "synthesised responses of the SSE transport: driven on the scripted HTTP seam by C12 (id/terminal-message oracle there)",
+    "transports/http/transport.py:StreamableHTTPTransport._send_message_via_http":
+        "synthesised responses of the Streamable-HTTP transport: driven on the scripted HTTP seam by C11",
+    "transports/http/transport.py:StreamableHTTPTransport._send_message_internal":
+        "synthesised responses of the Streamable-HTTP transport: driven on the scripted HTTP seam by C11",
+    "transports/http/transport.py:StreamableHTTPTransport._process_sse_response":
+        "synthesised responses of the Streamable-HTTP transport: driven on the scripted HTTP seam by C11",
+    "transports/http/http_client.py:detect_transport_type":
+        "constant probe request {id: 'transport-detect', method: 'ping'} posted to a URL; needs the network seam, no payload enters it",
+}
+
+
+def discover_raw_dict_emitters() -> List[str]:
+    """Every function/method of the package whose body holds a dict literal with a "jsonrpc" key (AST walk)."""
+    import chuk_mcp
+
+    root = os.path.dirname(os.path.abspath(chuk_mcp.__file__))
+    found = set()
+    for d, _dirs, files in sorted(os.walk(root)):
+        for f in sorted(files):
+            if not f.endswith(".py"):
+                continue
+            path = os.path.join(d, f)
+            rel = os.path.relpath(path, root).replace(os.sep, "/")
+            try:
+                tree = ast.parse(open(path, encoding="utf-8").read())
+            except SyntaxError as e:
+                raise core.HarnessError(f"cannot parse {rel}: {e}") from None
+
+            def walk(node, stack):
+                for ch in ast.iter_child_nodes(node):
+                    if isinstance(ch, (ast.FunctionDef, ast.AsyncFunctionDef, ast.ClassDef)):
+                        walk(ch, stack + [ch.name])
+                    else:
+                        if isinstance(ch, ast.Dict) and any(isinstance(k, ast.Constant) and k.value == "jsonrpc" for k in ch.keys):
+                            found.add(f"{rel}:{'.'.join(stack) or '<module>'}")
+                        walk(ch, stack)
+
+            walk(tree, [])
+    return sorted(found)
+
+
+class _Coded(Exception):
+    def __init__(self, msg, code):
+        super().__init__(msg)
+        self.code = code
+
+
+def _exc_family() -> List[Tuple[str, Any]]:
+    """(name, factory) - exceptions a message handler may raise; several carry a `code` attribute that is not a JSON integer."""
+    from chuk_mcp.protocol.types.errors import NonRetryableError, RetryableError, ValidationError
+
+    def method_code():
+        e = _Coded("callable code", None)
+        e.code = e.with_traceback  # a bound method
+        return e
+
+    return [
+        ("plain", lambda: RuntimeError("boom é  \"\\\n")),
+        ("no-text", lambda: ValueError()),
+        ("code-int", lambda: _Coded("int code", -32001)),
+        ("code-str", lambda: _Coded("str code", "e3q8")),
+        ("code-callable", method_code),
+        ("code-none", lambda: _Coded("none code", None)),
+        ("code-float", lambda: _Coded("float code", 1.5)),
+        ("code-true", lambda: _Coded("bool code", True)),
+        ("code-huge", lambda: _Coded("huge code", 2 ** 64)),
+        ("library-retryable", lambda: RetryableError("retry me", -32603)),
+        ("library-nonretryable", lambda: NonRetryableError("no retry", -32601)),
+        ("library-validation", lambda: ValidationError("bad params")),
+        ("key-error", lambda: KeyError("missing é")),
+    ]
+
+
+def _run_coro(coro):
+    try:
+        coro.send(None)
+    except StopIteration as e:
+        return e.value
+    coro.close()
+    raise core.HarnessError("coroutine suspended: the driver expected it to finish without awaiting the loop")
+
+
+def _run_raw(cfg) -> Dict[str, Any]:
+    which = cfg["which"]
+    if which == "process_message_data":
+        return _run_pmd(cfg)
+    if which == "elicitation-client":
+        return _run_elicit_client(cfg)
+    if which == "elicitation-handler":
+        return _run_elicit_handler(cfg)
+    raise core.HarnessError(which)
+
+
+def _run_pmd(cfg) -> Dict[str, Any]:
+    """BatchProcessor.process_message_data with handlers that answer, stay silent or raise."""
+    from chuk_mcp.protocol.features.batching import BatchProcessor
+
+    J = Judge("BatchProcessor.process_message_data")
+    version = cfg["version"]
+    ids = cfg["ids"]
+    fam = _exc_family()
+    behaviours = ["ok", "none"] + ["raise:" + n for n, _ in fam]
+    members = [("req", b) for b in behaviours] + [("notif", b) for b in behaviours] + [("nondict", "raise:type")]
+    outs = set()
+
+    def handler(item):
+        if not isinstance(item, dict):
+            raise TypeError("item is not an object")
+        do = (item.get("params") or {}).get("do")
+        if do == "ok":
+            return {"jsonrpc": "2.0", "id": item.get("id"), "result": {"echo": item.get("params"), "n": None}} if "id" in item else None
+        if do == "none":
+            return None
+        name = do.split(":", 1)[1]
+        raise dict(fam)[name]()
+
+    def build(shape, beh, rid):
+        if shape == "nondict":
+            return 42
+        m = {"jsonrpc": "2.0", "method": "m/é", "params": {"do": beh, "n": None}}
+        if shape == "req":
+            m["id"] = rid
+        return m
+
+    bp = BatchProcessor(version)
+    combos = [(a,) for a in members] + list(itertools.product(members, repeat=2))
+    for combo in combos:
+        rids = [ids[(cfg["id"] + i) % len(ids)] for i in range(len(combo))]
+        batch = [build(sh, b, rid) for (sh, b), rid in zip(combo, rids)]
+        ctx = f"process_message_data(version={version!r}, batch={json.dumps(batch)[:260]})"
+        J.count("cases")
+        try:
+            out = bp.process_message_data(copy.deepcopy(batch), handler)
+        except Exception as e:  # noqa: BLE001
+            J.bad("emitter-raised", f"raised {type(e).__name__}: {str(e)[:100]}; {ctx}")
+            outs.add("raised")
+            continue
+        if not bp.batching_enabled:
+            outs.add("rejected")
+            if not isinstance(out, dict):
+                J.bad("wrong-kind", f"a rejected batch returned {type(out).__name__}; {ctx}", got=type(out).__name__)
+                continue
+            k = J.emitted(out, "error", {}, ctx, allow_null_id_error=True)
+            if k == "error" and out["error"].get("code") != -32600:
+                J.bad("rejection-code", f"code {out['error'].get('code')} is not -32600; {ctx}")
+            continue
+        # expected responses, member by member
+        exp = []
+        for (sh, b), rid, item in zip(combo, rids, batch):
+            if b.startswith("raise"):
+                exp.append(("error", rid if sh == "req" else _ABSENT, b))
+            elif b == "ok" and sh == "req":
+                exp.append(("result", rid, item))
+        got = out if isinstance(out, list) else ([] if out is None else [out])
+        if out is not None and not isinstance(out, list):
+            J.bad("wrong-kind", f"a batch returned {type(out).__name__} instead of a list; {ctx}", got=type(out).__name__)
+            continue
+        if len(got) != len(exp):
+            J.bad("batch-response-count", f"{len(got)} responses for {len(exp)} answerable members: {_show(got)}; {ctx}")
+            outs.add("count-mismatch")
+            continue
+        outs.add("responses" if got else "none")
+        for (ek, rid, how), g in zip(exp, got):
+            if ek == "result":
+                J.emitted(g, "result", {"id": rid, "result": {"echo": how.get("params"), "n": None}}, f"handler's own answer in {ctx}")
+                continue
+            if not isinstance(g, dict):
+                J.bad("wrong-kind", f"member response is {type(g).__name__}; {ctx}", got=type(g).__name__)
+                continue
+            if rid is _ABSENT:
+                J.count("error-for-id-less-member(recorded)")
+                J.emitted(g, "error", {}, f"error for {how} in {ctx}", allow_null_id_error=True)
+            else:
+                J.emitted(g, "error", {"id": rid}, f"error for {how} in {ctx}")
+    return {"outcome": "pmd:" + "+".join(sorted(outs)), "violations": J.viol, "counters": J.cnt, "emitter": J.emitter,
+            "wire_digest": J.h.hexdigest()}
+
+
+def _run_elicit_client(cfg) -> Dict[str, Any]:
+    from chuk_mcp.protocol.types.elicitation import ElicitationClient
+
+    J = Judge("ElicitationClient.handle_elicitation_request")
+    rid = cfg["ids"][cfg["id"]]
+    fam = _exc_family()
+    objs = table("objects", cfg["depth"])
+    outs = set()
+    cases: List[Tuple[str, Any]] = [("data", o) for o in objs[cfg["lo"]:cfg["hi"]]]
+    if cfg["lo"] == 0:
+        cases += [("raise", n) for n, _ in fam]
+    for kind, x in cases:
+        async def user_input(message, schema, title, kind=kind, x=x):
+            if kind == "raise":
+                raise dict(fam)[x]()
+            return copy.deepcopy(x)
+
+        msg = {"jsonrpc": "2.0", "id": rid, "method": "elicitation/create",
+               "params": {"message": "pléase ", "schema": {"type": "object", "k": None}, "title": None}}
+        ctx = f"handle_elicitation_request(id={_show(rid)}) with user function {'raising ' + x if kind == 'raise' else 'returning ' + _show(x)}"
+        J.count("cases")
+        try:
+            out = _run_coro(ElicitationClient(user_input).handle_elicitation_request(copy.deepcopy(msg)))
+        except core.HarnessError:
+            raise
+        except Exception as e:  # noqa: BLE001
+            J.bad("emitter-raised", f"raised {type(e).__name__}: {str(e)[:100]}; {ctx}")
+            continue
+        if kind == "data":
+            J.emitted(out, "result", {"id": rid, "result": {"data": x, "cancelled": False}}, ctx)
+            outs.add("result")
+        else:
+            J.emitted(out, "error", {"id": rid}, ctx)
+            outs.add("error")
+    return {"outcome": "elicit-client:" + "+".join(sorted(outs)), "violations": J.viol, "counters": J.cnt, "emitter": J.emitter,
+            "wire_digest": J.h.hexdigest()}
+
+
+def _run_elicit_handler(cfg) -> Dict[str, Any]:
+    from chuk_mcp.protocol.types.elicitation import ElicitationHandler, ElicitationParams
+
+    J = Judge("ElicitationHandler.request_user_input")
+    objs = table("objects", cfg["depth"])[cfg["lo"]:cfg["hi"]]
+    text = TEXTS[cfg["text"]]
+    loop = new_loop(horizon=60)
+    sent: List[tuple] = []
+
+    async def main():
+        for o in objs:
+            for title in (None, text):
+                box: Dict[str, Any] = {}
+
+                async def send(request, box=box):
+                    box["request"] = request
+                    await box["handler"].handle_elicitation_response(
+                        {"jsonrpc": "2.0", "id": request.get("id") if isinstance(request, dict) else None, "result": {"data": {}}})
+
+                h = ElicitationHandler(send)
+                box["handler"] = h
+                try:
+                    params = ElicitationParams.model_validate({"message": text, "schema": copy.deepcopy(o), **({"title": title} if title is not None else {})})
+                except Exception:  # noqa: BLE001
+                    sent.append((o, title, "params-rejected", None))
+                    continue
+                try:
+                    await h.request_user_input(params, timeout=5.0)
+                    sent.append((o, title, "ok", box.get("request")))
+                except Exception as e:  # noqa: BLE001
+                    sent.append((o, title, "raised-" + type(e).__name__, box.get("request")))
+
+    with sched.patched_uuid():
+        status, val = loop.run_main(main())
+    loop.abandon()
+    if status != "ok":
+        raise core.HarnessError(f"elicitation harness did not finish: {status} {val!r}")
+    outs = set()
+    for o, title, st, req in sent:
+        J.count("cases")
+        outs.add(st)
+        if st == "params-rejected":
+            J.count("input-rejected-by-constructor:ElicitationParams")
+            continue
+        ctx = f"request_user_input(message={_show(text)}, schema={_show(o)}, title={_show(title)}) [{st}]"
+        if req is None:
+            J.bad("nothing-emitted", f"no request was handed to the send function; {ctx}")
+            continue
+        exp_params = {"message": text, "schema": o}
+        if title is not None:
+            exp_params["title"] = title
+        J.emitted(req, "request", {"method": "elicitation/create", "params": exp_params}, ctx)
+    return {"outcome": "elicit-handler:" + "+".join(sorted(outs)), "violations": J.viol, "counters": J.cnt, "emitter": J.emitter,
+            "wire_digest": J.h.hexdigest()}
+
 
 def _run_rejection(cfg) -> Dict[str, Any]:
     from chuk_mcp.protocol.features.batching import BatchProcessor
@@ -660,6 +948,8 @@ def run_one(ctl: explorer.Ctl, cfg: Dict[str, Any]) -> Dict[str, Any]:
         return _run_stdio(cfg)
     if part == "rejection":
         return _run_rejection(cfg)
+    if part == "raw":
+        return _run_raw(cfg)
     raise core.HarnessError(f"unknown part {part}")
 
 
@@ -737,6 +1027,11 @@ def run(tier: str, only=None) -> core.Result:
                 else:
                     helper_cfg.append({"part": "helper", "helper": h["name"], "kind": h["kind"], "rich": rich, "arm": arm,
                                        "text": ti, "payload": False, "lo": 0, "hi": 0, "depth": depth})
+    raw = discover_raw_dict_emitters()
+    for r in raw:
+        if r not in RAW_DRIVEN and r not in RAW_UNDRIVEN:
+            res.harness_errors.append(f"new raw-dict emitter {r} (builds a {{'jsonrpc': ...}} literal): neither driven by this check nor listed "
+                                      f"as undriven with a reason")
     known_methods = {"chuk_mcp.transports.stdio.stdio_client:StdioClient.send_json"}
     for m in disc["methods"]:
         if m not in known_methods:
@@ -821,6 +1116,22 @@ def run(tier: str, only=None) -> core.Result:
     out = explorer.explore(RUN, cfgs)
     sched.absorb(res, "d-batch-rejection-error", RUN, out, cfgs, min_outcomes=1)
 
+    # ---- (e) raw-dict emitters -----------------------------------------------------------------
+    cfgs = []
+    if "protocol/features/batching.py:BatchProcessor.process_message_data" in raw:
+        cfgs += [{"part": "raw", "which": "process_message_data", "version": v, "ids": IDS, "id": ii}
+                 for v in (None, "2024-11-05", "2025-06-17", "2025-06-18") for ii in range(len(IDS))]
+    if "protocol/types/elicitation.py:ElicitationClient.handle_elicitation_request" in raw:
+        cfgs += [{"part": "raw", "which": "elicitation-client", "ids": ids_srv, "id": ii, "depth": depth, "lo": lo, "hi": hi}
+                 for ii in range(len(ids_srv)) for lo, hi in _ranges(n_obj - 1, BLOCK)]
+    if "protocol/types/elicitation.py:ElicitationHandler.request_user_input" in raw:
+        cfgs += [{"part": "raw", "which": "elicitation-handler", "text": ti, "depth": depth, "lo": lo, "hi": hi}
+                 for ti in range(len(TEXTS)) for lo, hi in _ranges(n_obj - 1, BLOCK)]
+    if cfgs:
+        out = explorer.explore(RUN, cfgs)
+        sched.absorb(res, "e-raw-dict-emitters", RUN, out, cfgs)
+        samples += _pick("e-raw-dict-emitters", cfgs)
+
     # ---- measured counts -----------------------------------------------------------------
     cnt: Dict[str, int] = {}
     for p in res.parts.values():
@@ -835,6 +1146,8 @@ def run(tier: str, only=None) -> core.Result:
     cov["recorded_not_judged"] = {k: v for k, v in cnt.items()
                                   if "recorded" in k or k.startswith(("input-rejected", "handler-raised", "nothing-written",
                                                                         "request-not-parseable", "no-response", "error-with-null-id"))}
+    cov["raw_dict_emitters_discovered"] = {r: ("driven: " + RAW_DRIVEN[r]) if r in RAW_DRIVEN else ("undriven: " + RAW_UNDRIVEN.get(r, "?"))
+                                           for r in raw}
     cov["constructors_discovered"] = [_ctor_label(c) for c in ctors]
     cov["send_helpers_discovered"] = [h["name"] for h in disc["helpers"]]
     cov["send_methods_covered_by_transport_part"] = disc["methods"]
@@ -851,6 +1164,10 @@ def run(tier: str, only=None) -> core.Result:
         "argument profiles {required only, all optionals, second Union arm} x 3 texts for str parameters x every object for Dict[str, Any] "
         "parameters; (c) MCPServer handler: 14 method cases x id x every object as params/arguments; (d) stdio: 9 message kinds (typed, unified, "
         "dict) x id x payload through the real StdioClient to the scripted child's stdin; create_batch_rejection_error x 5 versions x 18 ids. "
+        "(e) every function with a {'jsonrpc': ...} dict literal (AST walk) is driven or listed with a reason: BatchProcessor.process_message_data x 4 versions x 17 ids x "
+        "every batch of 1..2 members over {request, notification, non-object} x handler behaviour {answers, silent, raises one of 13 exceptions incl. "
+        "`code` attributes str / callable / None / float / bool / 2^64}; ElicitationClient.handle_elicitation_request x id x every object as user data and the "
+        "exception family; ElicitationHandler.request_user_input x every object as schema x 3 texts x title present/absent. "
         + "stdio: the second and third method only with the first block of payloads. "
         + ("" if tier == "quick" else "thorough: constructors with depth-3 payloads x ids {2^64-1, empty string} plus depth-2 payloads x all 17 ids; "
            "server and stdio with 5 ids; stdio result/error payloads = every value of depth<=2 plus every depth-3 object. ")
@@ -866,6 +1183,9 @@ def run(tier: str, only=None) -> core.Result:
         "inputs a constructor itself rejects (e.g. a non-object result for the unified classmethod) emit nothing and are counted only",
         "helpers: the emitted request must contain every non-empty object passed for a Dict[str, Any] parameter unchanged; how other arguments map to params is not judged",
         "server: handle_message raising for id-less input is C08's subject (nothing is emitted); id echo is C08's subject",
+        "process_message_data: an error emitted for a member without an id (a failing notification or a non-object) carries id null - accepted per JSON-RPC 5.1 and recorded; "
+        "whether such a member should be answered at all is not C02's subject. The batch array as a whole is not fed to parse_message (it classifies only single messages reliably); every member is",
+        "raw-dict emitters of the HTTP/SSE transports are listed as undriven here with the property that drives them (C11/C12)",
         "HTTP and SSE request bodies (model_dump(exclude_none=True) + httpx json=) are the first serialised form judged in (a)/(b); the POST itself is exercised by C11/C12",
         "seeded deep JSON of the quantifier is replaced by the bounded-exhaustive depth-" + str(depth) + " enumeration",
     ]
